@@ -96,6 +96,7 @@ func H_C13_isolation() {
 
 // keysOfExact: the metadata key of exactly this collection plus its "c:<name>;" key space.
 func keysOfExact(ms *memstore.Store, coll string) []memstore.KV {
+	refresh(ms)
 	var out []memstore.KV
 	for _, kv := range ms.Data {
 		if string(kv.K) == "coll:"+coll {
